@@ -236,7 +236,7 @@ fn later_page_cases(out: &mut Out, rng: &mut Rng, toks: &mut Toks, thorough: boo
                 let mut calls = vec![Call::Next; (k - 1) * per + read_k];
                 calls.extend([Call::Finish, Call::State]);
                 let sc = Scenario { chain: chain.clone(), handle: Handle::default(), qtok: 2, filter_ok: true, pages, calls };
-                let o = check_scenario(out, "paged", &sc, false);
+                let o = check_scenario(out, "paged", &sc, true);
                 out.case(&scenario_request(&sc, "-"), true);
                 out.stat("later-page.finish-early");
                 later_page_checks(out, "finish-early", chain, k, &o, Some(1));
@@ -251,7 +251,7 @@ fn later_page_cases(out: &mut Out, rng: &mut Rng, toks: &mut Toks, thorough: boo
                     calls.push(Call::Finish);
                 }
                 let sc = Scenario { chain: chain.clone(), handle: Handle { tmo: true, ..Handle::default() }, qtok: 2, filter_ok: true, pages, calls };
-                let o = check_scenario(out, "paged", &sc, false);
+                let o = check_scenario(out, "paged", &sc, true);
                 out.case(&scenario_request(&sc, "-"), true);
                 out.stat("later-page.timeout");
                 later_page_checks(out, "timeout", chain, k, &o, Some(if with_finish { 2 } else { 1 }));
@@ -385,7 +385,8 @@ pub fn run(thorough: bool, mut rng: Rng, mut out: Out) {
         let mut calls = vec![Call::Next; n_calls];
         calls.extend([Call::State, Call::Finish, Call::State]);
         let sc = Scenario { chain, handle: Handle::default(), qtok: 1, filter_ok: true, pages, calls };
-        check_scenario(&mut out, "paged", &sc, false);
+        // strict: items, then the error (or silence), state Error, finish() = rc 88 (C10 clauses)
+        check_scenario(&mut out, "paged", &sc, true);
         out.case(&scenario_request(&sc, "-"), true);
         out.stat(&format!("later-page-fault={}", match mode { 0 => "cannot-submit", 1 => "disconnect", 2 => "silence", _ => "no-answer" }));
     }
